@@ -152,7 +152,8 @@ ODial(o, e) ==
     IF ~e.ok THEN o
     ELSE IF e.hc \in OHC /\ o.hcs[e.hc].st = "live" /\ e.conn > 0
             /\ (\A h \in OHC : e.conn \notin o.hcs[h].open)
-            /\ Cardinality(o.hcs[e.hc].open) + 1 <= o.hcs[e.hc].cnt
+            \* (with MaxConnWaitTimeout a closing connection hands its slot to a background dialer before it is closed)
+            /\ (o.wait = 0 => Cardinality(o.hcs[e.hc].open) + 1 <= o.hcs[e.hc].cnt)
          THEN [o EXCEPT !.hcs[e.hc].open = @ \cup {e.conn}]
          ELSE OReject(o)
 
@@ -249,12 +250,13 @@ OObsCount(o, e) ==
     IF /\ e.hc \in OHC /\ e.ivs >= 20
        /\ (e.hc \in o.ob.gone \cup o.ob.failed => e.n = 0)
        /\ (e.hc \in o.ob.live /\ e.hc \in AllMapHcs(o) => e.n >= 1)
+       /\ e.n <= e.ivs + 2                        \* a ticker of the configured interval cannot fire more often
     THEN o ELSE OReject(o)
 
 OFinal(o, e) ==
     IF e.hc \in OHC /\ o.hcs[e.hc].st # "none"
        /\ (e.sure => e.total = o.hcs[e.hc].cnt) /\ e.pool = e.cc
-       /\ (NoCalls(o) /\ e.sure /\ o.idle >= 30000 => e.pool = e.total /\ e.total = Cardinality(o.hcs[e.hc].open))
+       /\ (NoCalls(o) /\ e.sure /\ o.idle >= 30000 /\ o.wait = 0 => e.pool = e.total /\ e.total = Cardinality(o.hcs[e.hc].open))
     THEN o ELSE OReject(o)
 
 \* GetDialerName: the package of the dialer's type ("*main.recDialer" -> "main")
